@@ -121,9 +121,9 @@ TxBag(t) == ApplyDeltas(pristine[t], deltas[t])
 -----------------------------------------------------------------------
 (* the storage schema used by the drivers, as a predicate:
    {"schema": {"n":"int", "s":"string", "m":{"values":"int"},
-               "o":{"schema":{"p":"int","q":"string"}}, "w":"any"}}                         *)
+               "o":{"schema":{"p":"int","q":"string"}}, "w":"any", "v":"any"}}               *)
 Valid(bag) ==
-    /\ DOMAIN bag.m \subseteq {"n", "s", "m", "o", "w"}
+    /\ DOMAIN bag.m \subseteq {"n", "s", "m", "o", "w", "v"}
     /\ "n" \in DOMAIN bag.m => IsInt(bag.m["n"])
     /\ "s" \in DOMAIN bag.m => IsStr(bag.m["s"])
     /\ "m" \in DOMAIN bag.m => /\ bag.m["m"].t = "m"
@@ -132,7 +132,7 @@ Valid(bag) ==
                                /\ DOMAIN bag.m["o"].m \subseteq {"p", "q"}
                                /\ "p" \in DOMAIN bag.m["o"].m => IsInt(bag.m["o"].m["p"])
                                /\ "q" \in DOMAIN bag.m["o"].m => IsStr(bag.m["o"].m["q"])
-    \* "w": any non-null value (nulls never reach the bag)
+    \* "w", "v": any non-null value (nulls never reach the bag)
 
 -----------------------------------------------------------------------
 (* views *)
